@@ -136,6 +136,14 @@ class SimDrivable(SimReadable, Drivable):
         self.status = self.Status.IDLE, ''
         return False # keep thread running
 
+    def write_target(self, value):
+        # the status has to be BUSY before the reply to the target change is sent
+        if value != self._value:
+            self.status = self.Status.BUSY, 'MOVING'
+        elif self.status[0] == self.Status.BUSY:
+            self.status = self.Status.IDLE, ''
+        return value
+
     def _hw_wait(self):
         while self.status[0] == self.Status.BUSY:
             sleep(self.interval)
@@ -143,4 +151,4 @@ class SimDrivable(SimReadable, Drivable):
     @Command
     def stop(self):
         """set target to value"""
-        self.target = self.value
+        self.target = self.write_target(self.value)
